@@ -93,6 +93,8 @@ type world struct {
 	modules  []common.Address
 	track    map[common.Address]bool
 	txCount  int
+	forceFrom *vh.Acct // next vestTx: use this funder
+	forceKind string   // next vestTx: use this vesting kind
 }
 
 func newWorld(run *vh.Run, label string, wi int) *world {
@@ -246,9 +248,15 @@ func (w *world) vestTx(r *vh.RNG, scn, target string, to common.Address, route s
 	var signer, from *vh.Acct
 	if route == "granted-exec" {
 		from, signer = w.takePair(r)
+	} else if w.forceFrom != nil { // scenario-chosen funder (already taken for this round)
+		from, signer = w.forceFrom, w.forceFrom
+		w.forceFrom = nil
 	} else {
 		from = w.take(r)
 		signer = from
+	}
+	if w.forceKind != "" {
+		kind, w.forceKind = w.forceKind, ""
 	}
 	vm, amt := w.vestMsg(r, from, to, kind)
 	d.Vests = append(d.Vests, vestItem{From: from.Addr, To: to, Kind: kind, Target: target})
@@ -352,6 +360,22 @@ func (w *world) genScenario(r *vh.RNG) *scenario {
 			route, d := pickRoute(r, 20)
 			return []*txDesc{w.vestTx(r, s.name, "second-creation", a.Addr, route, d)}
 		}
+	case k < 17: // the FUNDER holds a proof, the target does not: every kind, top-level routes and self-exec
+		s.name = "vest-unproven-by-proven-funder"
+		f := w.take(r)
+		s.steps[0] = func() []*txDesc { return []*txDesc{w.validProof(r, s.name, f)} }
+		mk := func(kind string) func() []*txDesc {
+			return func() []*txDesc {
+				route, d := vh.Pick(r, []string{"top", "top", "multi:send,vest", "multi:vest,send", "self-exec"}), 0
+				if route == "self-exec" {
+					d = 1 + r.Intn(3)
+				}
+				w.forceFrom, w.forceKind = f, kind
+				return []*txDesc{w.vestTx(r, s.name, "unproven", vh.NewAcct(r).Addr, route, d)}
+			}
+		}
+		k1, k2 := vh.Pick(r, vestKinds), vh.Pick(r, vestKinds)
+		s.steps[1], s.steps[2] = mk(k1), mk(k2)
 	case k < 30: // unproven targets along every route
 		s.name = "vest-unproven"
 		s.steps[1] = func() []*txDesc {
